@@ -54,9 +54,9 @@ class SeriesOps:
             hi = kw.get("upper", pos[1] if len(pos) > 1 else None)
             t = s.term
             if lo is not None:
-                t = ("clip_lo", t, M.as_ser_term(lo))
+                t = T.max2(t, M.as_ser_term(lo))
             if hi is not None:
-                t = ("clip_hi", t, M.as_ser_term(hi))
+                t = T.min2(t, M.as_ser_term(hi))
             return s.with_term(t)
         if name == "abs":
             return s.with_term(("abs", s.term))
@@ -352,11 +352,8 @@ class SeriesOps:
             return ("dtypetest", short, M.as_ser_term(a0))
         if name in ("np.minimum", "np.maximum", "np.fmin", "np.fmax"):
             a, b = M.as_ser_term(pos[0]), M.as_ser_term(pos[1])
-            if T.is_const(a) and not T.is_const(b):
-                a, b = b, a
-            h = "clip_hi" if "min" in short else "clip_lo"
             ser = next((x for x in pos if isinstance(x, Ser)), None)
-            r = (h, a, b)
+            r = T.min2(a, b) if "min" in short else T.max2(a, b)
             return ser.with_term(r) if ser is not None else r
         if name == "np.where":
             ser = next((x for x in pos if isinstance(x, Ser)), None)
@@ -374,9 +371,15 @@ class SeriesOps:
             d = DefaultDict()
             fac = ast.unparse(node.args[0]) if getattr(node, "args", None) else "none"
             d.factory = fac if fac in ("list", "int", "str", "dict", "set", "float") else "none"
+            if pos and isinstance(pos[0], FuncRef):
+                d.factory_fn = pos[0]
             return d
         if name in ("collections.OrderedDict", "OrderedDict"):
             return {}
+        if short == "namedtuple" and len(pos) >= 2 and isinstance(pos[0], str):
+            fields = pos[1].split() if isinstance(pos[1], str) else (list(pos[1]) if isinstance(pos[1], list) else None)
+            if fields and all(isinstance(x, str) for x in fields):
+                return ("ntclass", pos[0], tuple(f.strip(",") for f in fields))
         if name.endswith("cmp_to_key"):
             return ("cmp_to_key", to_term(a0))
         if name.endswith("deepcopy") or name == "copy.copy":
@@ -489,10 +492,7 @@ class SeriesOps:
             if all(isinstance(p, (int, float)) for p in pos):
                 return (min if fn == "min" else max)(pos)
             if len(ts) == 2:
-                a, b = ts
-                if T.is_const(a) and not T.is_const(b):
-                    a, b = b, a
-                return ("clip_hi" if fn == "min" else "clip_lo", a, b)
+                return T.min2(*ts) if fn == "min" else T.max2(*ts)
             return (fn + "n",) + tuple(sorted(ts, key=repr))
         if fn == "sum":
             if isinstance(a0, Ser):
